@@ -1048,3 +1048,117 @@ Proof.
     as (o' & A0 & _ & _ & _ & _ & _ & _ & _ & _ & _ & _ & _ & _ & A13).
   rewrite Ho in A0. inversion A0; subst o'. rewrite <- Hk. apply A13; auto.
 Qed.
+
+(* ------------------------------------------------------------------ *)
+(* the leader's fresh record exists once the execution is done           *)
+
+Lemma NoDup_snoc {A} (l : list A) x : NoDup l -> ~ In x l -> NoDup (l ++ [x]).
+Proof.
+  induction l as [|y l IH]; intros Hn Hx; cbn.
+  - constructor; [intros []|constructor].
+  - inversion Hn; subst. constructor.
+    + intros Hin. apply in_app_or in Hin. destruct Hin as [Hin|[->|[]]]; [contradiction|]. apply Hx. left. reflexivity.
+    + apply IH; auto. intros Hin. apply Hx. right. exact Hin.
+Qed.
+
+Lemma NoDup_map_inj {A B} (f : A -> B) (l : list A) a b :
+  NoDup (map f l) -> In a l -> In b l -> f a = f b -> a = b.
+Proof.
+  induction l as [|y l IH]; intros Hn Ha Hb E; [destruct Ha|].
+  cbn in Hn. inversion Hn; subst. destruct Ha as [->|Ha], Hb as [->|Hb]; auto.
+  - exfalso. apply H1. rewrite E. apply in_map. exact Hb.
+  - exfalso. apply H1. rewrite <- E. apply in_map. exact Ha.
+Qed.
+
+Definition fresh_rec_ok (s : state) : Prop :=
+  (forall c, c < nextc s -> cdone (heap s c) = true ->
+     exists th r, nth_error (threads s) (fst (clead (heap s c))) = Some th /\
+                  In r (tres th) /\ rcid r = c /\ rfresh r = true) /\
+  (forall t th, nth_error (threads s) t = Some th ->
+     NoDup (map rop (tres th)) /\ forall r, In r (tres th) -> rop r < topi th).
+
+Lemma frk_keep s s' t th th' :
+  fresh_rec_ok s -> nth_error (threads s) t = Some th -> threads s' = upd_nth (threads s) t th' ->
+  (forall r, In r (tres th) -> In r (tres th')) ->
+  NoDup (map rop (tres th')) -> (forall r, In r (tres th') -> rop r < topi th') ->
+  (forall c, c < nextc s' -> cdone (heap s' c) = true ->
+     (c < nextc s /\ cdone (heap s c) = true /\ clead (heap s' c) = clead (heap s c)) \/
+     (fst (clead (heap s' c)) = t /\ exists r, In r (tres th') /\ rcid r = c /\ rfresh r = true)) ->
+  fresh_rec_ok s'.
+Proof.
+  intros [F1 F2] Ht Hth Hincl Hnd Hb Hh. split.
+  - intros c Hc Hd. rewrite Hth. destruct (Hh c Hc Hd) as [(A & B & C)|(A & r & R1 & R2 & R3)].
+    + destruct (F1 c A B) as (th0 & r & N & I & E1 & E2). rewrite C.
+      destruct (Nat.eq_dec (fst (clead (heap s c))) t) as [Et|Et].
+      * rewrite Et in *. rewrite Ht in N. inversion N; subst th0.
+        exists th', r. rewrite (nth_error_upd_nth_eq _ _ _ _ Ht). auto.
+      * exists th0, r. rewrite nth_error_upd_nth_neq by auto. auto.
+    + rewrite A. exists th', r. rewrite (nth_error_upd_nth_eq _ _ _ _ Ht). auto.
+  - intros t0 th0 N. rewrite Hth in N. apply nth_error_upd_nth in N.
+    destruct N as [(-> & -> & _)|(_ & N)]; [split; assumption|apply (F2 _ _ N)].
+Qed.
+
+Lemma frk_step s t s' : Inv s -> fresh_rec_ok s -> step s t = Some s' -> fresh_rec_ok s'.
+Proof.
+  intros HI HF H. unfold step in H.
+  destruct (nth_error (threads s) t) as [th|] eqn:Ht; [|discriminate].
+  destruct (cur_op th) as [o|] eqn:Ho; [|discriminate].
+  pose proof (pc_known s t th o HI Ht Ho) as P. unfold pc_ok, lead_ok in P.
+  destruct (proj2 HF t th Ht) as [ND BD].
+  assert (Snoc : forall r, rop r = topi th -> NoDup (map rop (tres th ++ [r])) /\
+                           forall r', In r' (tres th ++ [r]) -> rop r' < S (topi th)).
+  { intros r Er. split.
+    - rewrite map_app. cbn. apply NoDup_snoc; [exact ND|]. intros Hin. apply in_map_iff in Hin.
+      destruct Hin as (r0 & E0 & I0). specialize (BD r0 I0). lia.
+    - intros r' Hin. apply in_app_or in Hin. destruct Hin as [Hin|[<-|[]]]; [specialize (BD r' Hin); lia|lia]. }
+  destruct (tpc th) eqn:Epc;
+    repeat match type of H with
+           | context [match ?x with _ => _ end] => destruct x eqn:?
+           | context [if ?x then _ else _] => destruct x eqn:?
+           end;
+    inversion H; subst s'; clear H;
+    (eapply (frk_keep s _ t th); [exact HF | exact Ht | reflexivity | ..]); cbn [tres finish set_pc topi nextc heap];
+    try (intros; assumption); try exact ND; try exact BD;
+    try (intros r0 Hin; apply in_or_app; left; exact Hin);
+    try (apply Snoc; reflexivity).
+  all: try (intros c0 Hc0 Hd0; left; repeat split; auto; fail).
+  all: intros c0 Hc0 Hd0;
+    match goal with |- context [fupd _ ?cc _ _] =>
+      destruct (Nat.eq_dec c0 cc) as [->|Hne];
+      [ rewrite fupd_eq in *; cbn in Hd0 |- *;
+        first [ discriminate
+              | left; repeat split; auto; intuition; fail
+              | right; split;
+                [ destruct P as ((_ & _ & _ & E & _) & _); rewrite E; reflexivity
+                | eexists; split; [apply in_or_app; right; left; reflexivity | split; reflexivity] ] ]
+      | rewrite fupd_neq in * by exact Hne; left; repeat split; auto; lia ]
+    end.
+Qed.
+
+Lemma exec_fresh_rec_ok scripts sched : fresh_rec_ok (exec scripts sched).
+Proof.
+  assert (H : Inv (exec scripts sched) /\ fresh_rec_ok (exec scripts sched)); [|apply H].
+  unfold exec. apply (run_inv step (fun s => Inv s /\ fresh_rec_ok s)).
+  - intros s t s' [A B] Hs. split; [eapply step_inv; eauto | eapply frk_step; eauto].
+  - split; [apply init_inv|]. split.
+    + cbn. intros c Hc. lia.
+    + intros t th Hn. cbn in Hn. rewrite nth_error_map in Hn.
+      destruct (nth_error scripts t); inversion Hn; subst. cbn. split; [constructor|intros r []].
+Qed.
+
+Lemma exactly_one_fresh_l : forall scripts sched c,
+  let s := exec scripts sched in
+  c < nextc s -> cdone (heap s c) = true ->
+  exists t th r,
+    nth_error (threads s) t = Some th /\ In r (tres th) /\ rcid r = c /\ rfresh r = true /\
+    forall t' th' r', nth_error (threads s) t' = Some th' -> In r' (tres th') ->
+                      rcid r' = c -> rfresh r' = true -> t' = t /\ r' = r.
+Proof.
+  intros scripts sched c s Hc Hd. destruct (exec_fresh_rec_ok scripts sched) as [F1 F2]. fold s in F1, F2.
+  destruct (F1 c Hc Hd) as (th & r & N & I & E1 & E2).
+  exists (fst (clead (heap s c))), th, r. repeat split; auto.
+  - destruct (fresh_unique_l scripts sched t' _ th' th r' r H N H0 I ltac:(congruence) H2 E2) as [A _]. exact A.
+  - destruct (fresh_unique_l scripts sched t' _ th' th r' r H N H0 I ltac:(congruence) H2 E2) as [A B].
+    subst t'. fold s in H. rewrite N in H. inversion H; subst th'.
+    eapply (NoDup_map_inj rop (tres th)); eauto. apply (F2 _ _ N).
+Qed.
